@@ -1,5 +1,7 @@
 import GoatSpec.Properties.C09
 import GoatSpec.Proofs.Splice
+import GoatSpec.Proofs.Legal
+import GoatSpec.Properties.C03
 /-! # C01 — goat track succeeds and the instrumented project still builds.
 
 Lean cannot prove that a Go program compiles (assumption A1, monitored end to end). What is
@@ -73,6 +75,116 @@ theorem two_singles_one_dropped : pass2Count 0 [60] [(1, 14), (1, 40)] = some 1 
     later, shorter line and `src[:column]` panics (slice bounds out of range) -/
 theorem two_singles_panic :
     writtenBlocks [17, 60, 20, 12] [10, 60, 3, 0] [1, 3] [(2, 14), (2, 40)] = none := by decide
+
+/-- fields of an environment built by `mkEnv` -/
+theorem mkEnv_fields (f : File) (g : Gran) (ranges : List (Nat × Nat)) (env : Env)
+    (h : mkEnv f g ranges = .ok env) :
+    env.comments = commentArray f.lineCodes ∧ functionScopes f = some env.funcs := by
+  unfold mkEnv at h
+  split at h
+  · cases h
+  · next fs hfs =>
+    dsimp only at h
+    split at h
+    · cases h
+    · split at h
+      · cases h
+      · cases h; exact ⟨rfl, hfs⟩
+
+/-- **marks_legal — every tracking block is written at a statement boundary.**
+    For every abstract file that meets the layout hypothesis `wfFile` (what gofmt-formatted,
+    parsed Go looks like: `Layout.lean`), every changed-line set and the granularities line,
+    patch and scope: whenever the tracker terminates normally, each multi-line insert position
+    `r` is a statement boundary of a block of a function body — `legalLine f r`: some block of
+    the file (function body, bare block, if / else / for / range / case / comm body) has
+    `lo < r ≤ hi` and `r` is the first line of one of its statements or its closing line.
+    Hence the block lands between two statements, never inside an expression, a header or a
+    comment (positions are never comment-like: `C09.points_distinct_and_placed`).
+    Proof: `C09.points_justified` (a position is the first non-comment line at or after the line
+    of a passing event), `chkL`/`frcL` (mutual induction over the syntax tree: check events name
+    statement lines of blocks, force events the line after a branch block's opening line), and
+    the line lemmas of `Proofs/Legal` (on a block that meets `blkOK` the skip loop stops at the
+    statement line / the first boundary). -/
+theorem marks_legal (f : File) (hwf : wfFile f = true) (g : Gran) (hg : g ≠ .func)
+    (ranges : List (Nat × Nat)) (m : Marks) (h : marks f g ranges = .ok m) :
+    ∀ r ∈ m.multi, legalLine f r = true := by
+  intro r hr
+  unfold marks at h
+  split at h
+  · cases h
+  · next env henv =>
+    dsimp only at h
+    split at h
+    · cases h
+    · next st hst =>
+      cases h
+      rw [C03.mem_sortNat] at hr
+      have hgran : env.gran = g := C03.mkEnv_gran f g ranges env henv
+      obtain ⟨hcm, hfs⟩ := mkEnv_fields f g ranges env henv
+      have hinv := runEvents_inv env _ st hst
+      simp only [wfFile, Bool.and_eq_true, List.all_eq_true] at hwf
+      obtain ⟨⟨hshape, hblks⟩, hone⟩ := hwf
+      rcases C09.points_justified env _ {} st (Inv.init env) hst r hr with h0 | ⟨l, hl, ht⟩
+      · cases h0
+      · have hskip : skipComments env (env.comments.size + 1) l = .ok r := by
+          rcases ht with ⟨_, h1⟩ | ⟨h1, _⟩
+          · exact h1
+          · rw [hgran] at h1; exact absurd h1 hg
+        rcases hl with ⟨hev, _⟩ | hev
+        · -- a check event
+          obtain ⟨d, hd, hdev⟩ := List.mem_flatMap.mp hev
+          rcases decl_check _ d (hshape d hd) l hdev with hc | ⟨lb, rb, first, stmts, rfl, hlr, hin⟩
+          · obtain ⟨b, hb, hlb, hm⟩ := hc
+            have hbf : b ∈ fileBlks f := List.mem_flatMap.mpr ⟨d, hd, hb⟩
+            have hbok := hblks b hbf
+            have hlt : b.lo < b.hi := by
+              have hle : b.lo ≤ b.hi := by
+                have := hbok.1; simp only [blkOK, Bool.and_eq_true, decide_eq_true_eq] at this; exact this.1
+              rcases hm with hne | hh
+              · omega
+              · have := hbok.2
+                simp only [forcedOK, Bool.or_eq_true, List.isEmpty_iff, decide_eq_true_eq] at this
+                rcases this with h1 | h1
+                · exact absurd h1 hh
+                · exact h1
+            exact check_target_legal env f hcm b hbf hbok.1 hlt l hlb _ r hskip
+          · -- statements of a one-line function declaration: never strictly inside a function
+            simp only [oneLinersOK, hfs] at hone
+            have := (List.all_eq_true.mp hone) _ hd
+            simp only [hlr, bne_self_eq_false, Bool.false_or, Bool.and_eq_true, beq_iff_eq, Bool.not_eq_true',
+              decide_eq_true_eq, List.all_eq_true] at this
+            obtain ⟨⟨⟨⟨hs0, hnc⟩, h1⟩, hsz⟩, hall⟩ := this
+            have hl' : l = rb := by simpa [Ev.checkLineIs] using hall _ hin
+            rw [hl'] at hskip
+            have hcmt := isComment_of_codes env f hcm rb h1 hsz
+            rw [hnc] at hcmt
+            rw [skipComments_id env _ rb hcmt] at hskip
+            cases hskip
+            exact absurd hs0 (hinv.inFunc _ hr)
+        · -- a force event
+          obtain ⟨d, hd, hdev⟩ := List.mem_flatMap.mp hev
+          obtain ⟨b, hb, hlb, hh⟩ := decl_force _ d (hshape d hd) l hdev
+          have hbf : b ∈ fileBlks f := List.mem_flatMap.mpr ⟨d, hd, hb⟩
+          have hbok := hblks b hbf
+          have hlt : b.lo < b.hi := by
+            have := hbok.2
+            simp only [forcedOK, Bool.or_eq_true, List.isEmpty_iff, decide_eq_true_eq] at this
+            rcases this with h1 | h1
+            · exact absurd h1 hh
+            · exact h1
+          subst hlb
+          exact force_target_legal env f hcm b hbf hbok.1 hlt _ r hskip
+
+/-- non-vacuity of `marks_legal`: a well-formed file with an `if` whose header is changed (a
+    forced insert that skips a comment line) and a changed statement -/
+def legalExample : File :=
+  ⟨1, 11, #[0, 1, 0, 0, 2, 0, 0, 0, 0, 0, 1], #[9, 0, 20, 12, 10, 8, 2, 8, 10, 1, 0],
+   [.funcDecl (some (3, 10, some (4, 2),
+      [.ifS 4 7 [] none (some (4, 4)) [] 4 7 [.simple .mark 6 6 [] [] []] [],
+       .simple .mark 8 8 [] [] [], .simple .mark 9 9 [] [] []]))]⟩
+
+example : wfFile legalExample = true := by decide
+example : (marks legalExample .line [(4, 1), (9, 1)]).toOption.map (·.multi) = some [6, 9] := by decide +kernel
 
 /-- non-vacuity: a file with a body-less declaration and a function with a body -/
 example : functionScopes ⟨1, 9, #[0,0,0,0,0,0,0,0,0,1], #[], [.funcDecl none,
